@@ -52,8 +52,12 @@ abbrev XI : Nat := L
 /-- entry `[j][i]` of an `XI × OT_WIDTH` table of byte strings -/
 def at3 (v : List (List Bytes)) (j i : Nat) : Bytes := (v.getD j []).getD i []
 
-/-- `Scalar::reduce(U256::from_be_bytes(v[j][i]))` -/
-def alpha (v : List (List Bytes)) (j i : Nat) : Nat := ofBe (at3 v j i)
+/-- every entry of an `XI × OT_WIDTH` table of byte strings as a scalar: `Scalar::reduce(U256::from_be_bytes(v[j][i]))`
+    (the Rust decodes an entry each time it is used; the model decodes the table once) -/
+def decodeTable (v : List (List Bytes)) : List (List Nat) := v.map (·.map ofBe)
+
+/-- entry `[j][i]` of a table of scalars -/
+def sAt (t : List (List Nat)) (j i : Nat) : Nat := (t.getD j []).getD i 0
 
 /-! ### gadget vector -/
 
@@ -153,13 +157,13 @@ def linComb (init : Nat) (theta x : Nat → Nat) : Nat :=
   (List.range L_BATCH).foldl (fun v i => addq v (mulq (theta i) (x i))) init
 
 /-- sender: `c[i] = -Σ_j g_j · α0[j][i]` -/
-def senderC (g : List Nat) (v0 : List (List Bytes)) : List Nat :=
-  (List.range L_BATCH).map fun i => negq (sumq ((List.range XI).map fun j => mulq (g.getD j 0) (alpha v0 j i)))
+def senderC (g : List Nat) (A0 : List (List Nat)) : List Nat :=
+  (List.range L_BATCH).map fun i => negq (sumq ((List.range XI).map fun j => mulq (g.getD j 0) (sAt A0 j i)))
 
 /-- sender: row j of `a_tilde` as scalars: `α0 − α1 + a_i` in the batch columns, `α0 − α1 + eta_k` in the check columns -/
-def aTildeRow (v0 v1 : List (List Bytes)) (a eta0 : List Nat) (j : Nat) : List Nat :=
-  ((List.range L_BATCH).map fun i => addq (subq (alpha v0 j i) (alpha v1 j i)) (a.getD i 0)) ++
-  ((List.range RHO).map fun k => addq (subq (alpha v0 j (L_BATCH + k)) (alpha v1 j (L_BATCH + k))) (eta0.getD k 0))
+def aTildeRow (A0 A1 : List (List Nat)) (a eta0 : List Nat) (j : Nat) : List Nat :=
+  ((List.range L_BATCH).map fun i => addq (subq (sAt A0 j i) (sAt A1 j i)) (a.getD i 0)) ++
+  ((List.range RHO).map fun k => addq (subq (sAt A0 j (L_BATCH + k)) (sAt A1 j (L_BATCH + k))) (eta0.getD k 0))
 
 /-- sender: `eta[k] += Σ_i theta[k][i] · a_i` -/
 def etaFinal (theta a eta0 : List Nat) : List Nat :=
@@ -167,24 +171,24 @@ def etaFinal (theta a eta0 : List Nat) : List Nat :=
     addq (eta0.getD k 0) (sumq ((List.range L_BATCH).map fun i => mulq (th theta k i) (a.getD i 0)))
 
 /-- sender: the values hashed into mu: `α0[j][L_BATCH+k] + Σ_i theta[k][i] · α0[j][i]` -/
-def muSender (theta : List Nat) (v0 : List (List Bytes)) : List Nat :=
-  muIdx.map fun (j, k) => linComb (alpha v0 j (L_BATCH + k)) (th theta k) (alpha v0 j)
+def muSender (theta : List Nat) (A0 : List (List Nat)) : List Nat :=
+  muIdx.map fun (j, k) => linComb (sAt A0 j (L_BATCH + k)) (th theta k) (sAt A0 j)
 
 /-- receiver: `conditional_select(v_x[j][i], v_x[j][i] + a_tilde[j][i], β_j)` (`d_dot` for i < L_BATCH, `d_hat` beyond) -/
-def dSel (beta : Bytes) (vx aTilde : List (List Bytes)) (j i : Nat) : Nat :=
-  if bitAt beta j then addq (alpha vx j i) (ofBe (at3 aTilde j i)) else alpha vx j i
+def dSel (beta : Bytes) (VX AT : List (List Nat)) (j i : Nat) : Nat :=
+  if bitAt beta j then addq (sAt VX j i) (sAt AT j i) else sAt VX j i
 
 /-- receiver: the values hashed into mu':
     `conditional_select(v, v − eta[k], β_j)` with `v = d_hat[j][k] + Σ_i theta[k][i] · d_dot[j][i]` -/
-def muReceiver (theta : List Nat) (beta : Bytes) (vx : List (List Bytes)) (msg : Msg2) : List Nat :=
+def muReceiver (theta : List Nat) (beta : Bytes) (VX AT : List (List Nat)) (eta : List Nat) : List Nat :=
   muIdx.map fun (j, k) =>
-    let v := linComb (dSel beta vx msg.aTilde j (L_BATCH + k)) (th theta k) (dSel beta vx msg.aTilde j)
-    if bitAt beta j then subq v (ofBe (msg.eta.getD k [])) else v
+    let v := linComb (dSel beta VX AT j (L_BATCH + k)) (th theta k) (dSel beta VX AT j)
+    if bitAt beta j then subq v (eta.getD k 0) else v
 
 /-- receiver: `d[i] = Σ_j g_j · d_dot[j][i]` -/
-def receiverD (g : List Nat) (beta : Bytes) (vx : List (List Bytes)) (msg : Msg2) : List Nat :=
+def receiverD (g : List Nat) (beta : Bytes) (VX AT : List (List Nat)) : List Nat :=
   (List.range L_BATCH).map fun i =>
-    (List.range XI).foldl (fun acc j => addq acc (mulq (g.getD j 0) (dSel beta vx msg.aTilde j i))) 0
+    (List.range XI).foldl (fun acc j => addq acc (mulq (g.getD j 0) (dSel beta VX AT j i))) 0
 
 /-- `RHO` successive `Scalar::generate_biased(rng)` -/
 def drawEta : Nat → Tape → List Nat × Tape
@@ -199,28 +203,31 @@ def drawEta : Nat → Tape → List Nat × Tape
 /-- `RVOLESender::process` from `let c = …` on: `(c, output, rest of the tape)` -/
 def senderCore (O : Query → m Bytes) (sid : Bytes) (g : List Nat) (v0 v1 : List (List Bytes)) (a : List Nat)
     (tape : Tape) : m (List Nat × Msg2 × Tape) := do
-  let c := senderC g v0
+  let A0 := decodeTable v0
+  let A1 := decodeTable v1
+  let c := senderC g A0
   let (eta0, tape') := drawEta RHO tape
-  let aTilde := (List.range XI).map fun j => (aTildeRow v0 v1 a eta0 j).map toBe
+  let aTilde := (List.range XI).map fun j => (aTildeRow A0 A1 a eta0 j).map toBe
   let theta ← thetaAll O sid aTilde
   let eta := etaFinal theta a eta0
-  let muHash ← muHashOf O sid (muSender theta v0)
+  let muHash ← muHashOf O sid (muSender theta A0)
   pure (c, { aTilde, eta := eta.map toBe, muHash }, tape')
 
 def checkFailed : String := "Consistency check failed"
 
-/-- the receiver's check: `(theta, mu' values, digest of mu')` -/
-def receiverMu (O : Query → m Bytes) (sid beta : Bytes) (vx : List (List Bytes)) (msg : Msg2) : m Bytes := do
+/-- the receiver's check value: the digest of mu' (`VX` = the decoded `v_x`) -/
+def receiverMu (O : Query → m Bytes) (sid beta : Bytes) (VX : List (List Nat)) (msg : Msg2) : m Bytes := do
   let theta ← thetaAll O sid msg.aTilde
-  muHashOf O sid (muReceiver theta beta vx msg)
+  muHashOf O sid (muReceiver theta beta VX (decodeTable msg.aTilde) (msg.eta.map ofBe))
 
 /-- `RVOLEReceiver::process` from the theta transcript on (the gadget vector is only generated after the check) -/
 def receiverCore (O : Query → m Bytes) (sid beta : Bytes) (vx : List (List Bytes)) (msg : Msg2) :
     m (Except String (List Nat)) := do
-  let muHash' ← receiverMu O sid beta vx msg
+  let VX := decodeTable vx
+  let muHash' ← receiverMu O sid beta VX msg
   if msg.muHash ≠ muHash' then pure (.error checkFailed) else do
     let g ← gadgetVec O sid
-    pure (.ok (receiverD g beta vx msg))
+    pure (.ok (receiverD g beta VX (decodeTable msg.aTilde)))
 
 /-! ### OT-extension variant (rvole.rs) -/
 
@@ -410,13 +417,15 @@ def devShift (theta a a' : List Nat) (k : Nat) : Nat :=
     β_j = guess_j in every deviating row (up to theta·(a'_j − a) = 0 and collisions of the mu hash). -/
 def advCore (O : Query → m Bytes) (sid : Bytes) (g : List Nat) (v0 v1 : List (List Bytes)) (a : List Nat) (tape : Tape)
     (devs : List Dev) : m (List Nat × Msg2 × Tape) := do
-  let c := senderC g v0
+  let A0 := decodeTable v0
+  let A1 := decodeTable v1
+  let c := senderC g A0
   let (eta0, tape') := drawEta RHO tape
-  let aTilde := (List.range XI).map fun j => (aTildeRow v0 v1 (devInput devs a j) eta0 j).map toBe
+  let aTilde := (List.range XI).map fun j => (aTildeRow A0 A1 (devInput devs a j) eta0 j).map toBe
   let theta ← thetaAll O sid aTilde
   let eta := etaFinal theta a eta0
   let mu := muIdx.map fun (j, k) =>
-    let v := linComb (alpha v0 j (L_BATCH + k)) (th theta k) (alpha v0 j)
+    let v := linComb (sAt A0 j (L_BATCH + k)) (th theta k) (sAt A0 j)
     match devAt devs j with
     | some d => if d.guess then addq v (devShift theta a d.a' k) else v
     | none => v
@@ -465,6 +474,18 @@ def tamperBit (x : Msg2) (pos : Nat) : Msg2 := Msg2.parse (flipBit x.serialize p
 def tamperSet (x : Msg2) (off : Nat) (data : Bytes) : Msg2 := Msg2.parse (overwrite x.serialize off data)
 def tamperSwap (x : Msg2) (o1 o2 len : Nat) : Msg2 := Msg2.parse (swapFields x.serialize o1 o2 len)
 def tamperSplice (x other : Msg2) (off len : Nat) : Msg2 := Msg2.parse (splice x.serialize other.serialize off len)
+
+/-- the same flip computed on the parsed message (used by the batched verdict op of the driver; agrees with `tamperBit` on
+    well-formed messages, and the harness flips the real bytes independently) -/
+def tamperBitFast (x : Msg2) (pos : Nat) : Msg2 :=
+  let ab := 8 * (XI * L_BATCH_PLUS_RHO * KAPPA_BYTES)
+  if pos < ab then
+    let e := pos / (8 * KAPPA_BYTES)
+    { x with aTilde := x.aTilde.modify (e / L_BATCH_PLUS_RHO) fun r =>
+        r.modify (e % L_BATCH_PLUS_RHO) fun bs => flipBit bs (pos % (8 * KAPPA_BYTES)) }
+  else
+    let tail := flipBit (x.eta.flatMap id ++ x.muHash) (pos - ab)
+    { x with eta := chunks KAPPA_BYTES RHO tail, muHash := (tail.drop (RHO * KAPPA_BYTES)).take 64 }
 
 def tamperBitOt (x : Msg2Ot) (pos : Nat) : Msg2Ot := Msg2Ot.parse (flipBit x.serialize pos)
 
